@@ -64,8 +64,8 @@ PLAN = {
     "C06": (["pow2", "radix", "compact+radix", "radix+format"], ["compact+pow2", "pow2+format", "compact+radix+format"]),
     "C07": (["radix", "compact+radix", "radix+format"], ["compact+radix+format"]),
     "C08": (["default", "radix", "format", "radix+format"], ["compact", "pow2", "compact+radix+format", "pow2+format"]),
-    "C09": (["default", "compact", "pow2", "radix+format", "radix+format:checked"], ["compact+radix+format", "default:checked", "format", "radix", "compact+radix+format:checked"]),
-    "C10": (["default", "default:checked", "radix+format", "radix+format:checked", "compact+radix+format"], ["compact", "format", "compact+radix+format:checked", "radix", "pow2+format"]),
+    "C09": (["default", "compact", "compact:checked", "pow2", "radix+format", "radix+format:checked"], ["compact+radix+format", "default:checked", "format", "radix", "compact+radix+format:checked"]),
+    "C10": (["default", "default:checked", "radix+format", "radix+format:checked", "compact+radix+format"], ["compact", "compact:checked", "format", "compact+radix+format:checked", "radix", "pow2+format"]),
     "C11": (["default", "compact", "radix+format", "compact+radix+format"], ["format", "radix", "pow2+format"]),
     "C12": (["format", "radix+format", "compact+radix+format"], ["pow2+format", "compact+format"]),
     "C13": (["radix+format", "format", "compact+radix+format"], ["pow2+format", "compact+format"]),
